@@ -1,7 +1,7 @@
 //! C05 — decoding untrusted input never panics or hangs (panic monitor; run on two builds).
 use crate::ctx::{guard, panic_site, Case, Ctx};
 use crate::gen::inputs;
-use crate::gen::rswords::{add_vanishing, apply, pattern, valid_codeword};
+use crate::gen::rswords::{add_vanishing, add_with_roots, apply, pattern, random_root_set, valid_codeword};
 use crate::json::{hex, J};
 use crate::refimpl::cat::{self, Row, CAT};
 use crate::refimpl::dec::randomize_255;
@@ -239,7 +239,19 @@ pub fn run(ctx: &mut Ctx) {
         let big = r.total() > 300;
         let n = ctx.budget(if big { 16 * 60 } else { 16 * 400 }, if big { 16 * 6000 } else { 16 * 40_000 });
         for i in 0..n as usize {
-            match i % 6 {
+            match i % 7 {
+                6 => {
+                    // an arbitrary subset of the syndromes vanishes (e.g. all but the first)
+                    let mut cw = valid_codeword(&mut ctx.rng, r, &rs, i);
+                    let nb = if ctx.rng.chance(1, 2) { 1 } else { r.blocks };
+                    for _ in 0..nb {
+                        let b = ctx.rng.below(r.blocks);
+                        let roots = random_root_set(&mut ctx.rng, k);
+                        let qd = ctx.rng.below(2);
+                        add_with_roots(&mut ctx.rng, r, &mut cw, b, &roots, qd);
+                    }
+                    eval_word(ctx, r, &cw, "c.subset_of_syndromes_vanishes");
+                }
                 0 => {
                     let w = ctx.rng.bytes(r.total());
                     eval_word(ctx, r, &w, "c.noise");
